@@ -1,4 +1,4 @@
 CONSTANTS Deep = FALSE
 INIT Init
 NEXT Next
-INVARIANTS Out FrameRule FreshNamesUndefinedAfter TemplateSetPersists OuterSetUpdates LocalsShadow
+INVARIANTS Out ChildSetVisible FrameRule FreshNamesUndefinedAfter TemplateSetPersists OuterSetUpdates LocalsShadow
